@@ -217,6 +217,27 @@ def _state_check_chain(
     return state_exists
 
 
+def _state_operation_override(
+    state_params: dict[str, str], do: str, state: str, mode: str
+) -> None:
+    """
+    Override the state and policy of an operation for an already resolved object.
+
+    :param state_params: parameters of the resolved parametric object
+    :param do: get, set, or unset
+    :param state: state name to use for the operation
+    :param mode: policy to use for the operation
+
+    Any more specific (suffixed) variants have to be dropped since they
+    will otherwise be resolved again and preferred by the nested operation.
+    """
+    for key in list(state_params.keys()):
+        if key.startswith(f"{do}_state_") or key.startswith(f"{do}_mode_"):
+            del state_params[key]
+    state_params[f"{do}_state"] = state
+    state_params[f"{do}_mode"] = mode
+
+
 def show_states(run_params: Params, env: Env = None) -> list[str]:
     """
     Return a list of available states of a specific type.
@@ -659,8 +680,9 @@ def push_states(run_params: Params, env: Env = None) -> None:
             state_params[composite_type] = composite_name
         state_params["states_chain"] = composite_types[-1]
 
-        state_params["set_state"] = state_params["push_state"]
-        state_params["set_mode"] = state_params.get("push_mode", "af")
+        _state_operation_override(
+            state_params, "set", state, state_params.get("push_mode", "af")
+        )
 
         set_states(state_params, env)
 
@@ -703,10 +725,12 @@ def pop_states(run_params: Params, env: Env = None) -> None:
             state_params[composite_type] = composite_name
         state_params["states_chain"] = composite_types[-1]
 
-        state_params["get_state"] = state_params["pop_state"]
-        state_params["get_mode"] = state_params.get("pop_mode", "ra")
+        _state_operation_override(
+            state_params, "get", state, state_params.get("pop_mode", "ra")
+        )
         get_states(state_params, env)
 
-        state_params["unset_state"] = state_params["pop_state"]
-        state_params["unset_mode"] = state_params.get("pop_mode", "fa")
+        _state_operation_override(
+            state_params, "unset", state, state_params.get("pop_mode", "fa")
+        )
         unset_states(state_params, env)
